@@ -145,6 +145,8 @@ def check_received(raw: bytes) -> tuple[str, list[tuple[str, str]]]:
     a, b = raw[off:], again[off:]
     if raw[:off] != again[:off] or len(a) != len(b):
         return "changed", [("received-frame-length-or-head-changed", f"{raw.hex()} -> {again.hex()}")]
+    if bool(b[0] & 0x80) != (b[6] <= 15):
+        return "changed", [("reserialised-frame-type-bit-wrong", f"{raw.hex()} -> {again.hex()}: FT={b[0] >> 7} with NPDU length {b[6]} (the frame type has to be derived, whatever was received)")]
     mask = bytearray(len(a))
     mask[0] = 0xC0  # FT (derived) and the reserved bit r of Ctrl1
     if frame.data.payload is not None:
